@@ -731,3 +731,62 @@ prql version:"^0.9" target:sql.sqlite
         );
     }
 }
+
+/// Thin wrappers for out-of-tree verification harnesses. Compiled only under
+/// `cargo kani` (which sets `--cfg kani`); a normal build does not see them.
+#[cfg(kani)]
+pub mod verif_hooks {
+    use super::*;
+
+    fn leaf() -> Box<pr::Expr> {
+        // `Param` with an empty name: a leaf that does not allocate
+        Box::new(pr::Expr::new(pr::ExprKind::Param(String::new())))
+    }
+
+    /// `binding_strength` of a binary expression with the given operator.
+    pub fn binding_strength_of_binary(op: pr::BinOp) -> u8 {
+        let kind = pr::ExprKind::Binary(pr::BinaryExpr {
+            left: leaf(),
+            op,
+            right: leaf(),
+        });
+        let r = binding_strength(&kind);
+        std::mem::forget(kind);
+        r
+    }
+
+    /// `needs_parenthesis` for a child that is a binary (`child_binary`) or unary
+    /// (`child_unary`) expression, written with the given context.
+    /// `position`: 0 = unspecified, 1 = left operand, 2 = right operand.
+    pub fn needs_parenthesis_of(
+        child_binary: Option<pr::BinOp>,
+        child_unary: Option<pr::UnOp>,
+        context_strength: u8,
+        position: u8,
+        unbound_expr: bool,
+    ) -> bool {
+        let kind = if let Some(op) = child_binary {
+            pr::ExprKind::Binary(pr::BinaryExpr {
+                left: leaf(),
+                op,
+                right: leaf(),
+            })
+        } else if let Some(op) = child_unary {
+            pr::ExprKind::Unary(pr::UnaryExpr { op, expr: leaf() })
+        } else {
+            pr::ExprKind::Param(String::new())
+        };
+        let expr = pr::Expr::new(kind);
+        let mut opt = WriteOpt::default();
+        opt.context_strength = context_strength;
+        opt.binary_position = match position {
+            1 => super::super::Position::Left,
+            2 => super::super::Position::Right,
+            _ => super::super::Position::Unspecified,
+        };
+        opt.unbound_expr = unbound_expr;
+        let r = needs_parenthesis(&expr, &opt);
+        std::mem::forget(expr);
+        r
+    }
+}
